@@ -18,10 +18,10 @@ ASSUMPTIONS = {
     "P-contains": "P-contains (assumed at the compound layer; proved for polyhedra by the C11 obligations): contains_behavior answers True iff every inequality holds, ValueError iff a constrained variable is unassigned",
     "A9-fmt": "A9-fmt: default float formatting yields a non-empty string over [0-9.e+-]; variable names used in the harnesses are delimited from it (first character a letter other than e)",
     "contract of same_term_list": "call-site contract of PolyhedralSyntaxAbsoluteTerm.same_term_list (proved by SyntaxAbsoluteTerm.same_term_list[*])",
-    "A-card": "cardinality lemma: len(set(L)) == len(L) iff L is duplicate-free (pure mathematics, used by the list abstraction)",
+    "A-card": "cardinality lemma: len(set(L)) == len(L) iff L is duplicate-free (pure mathematics, used by the list abstraction; proved in Lean 4/Mathlib: lemmas/A3.lean theorem A_card_nodup, re-checked by bin/selftest; what stays assumed is that Python's set/len implement it)",
     "A1": "A1: floats are treated as mathematical reals (no rounding, overflow, nan, inf, -0.0); what this hides is what the bounded monitor looks at",
     "A2": "A2: Var equality/hash is name equality (checked by the VCs on Var.__eq__/__hash__), dict iteration order irrelevant",
-    "A3": "A3: finite sums are bilinear: linear functionals are affine along segments (comb points instantiated explicitly)",
+    "A3": "A3: finite sums are bilinear: linear functionals are affine along segments (comb points instantiated explicitly; proved in Lean 4/Mathlib: lemmas/A3.lean theorems A3_affine_along_segments / A3_convex_combination, re-checked by bin/selftest)",
     "A4": "A4: ideal contract of scipy.optimize.linprog(c, A_ub, b_ub, bounds=(None,None)): status in {0,2,3}; 2 iff infeasible; 3 iff feasible and unbounded; 0 => x feasible, fun = c.x minimal, slack = b - A x (assumed; the real HiGHS is exercised by the bounded monitors)",
     "A5": "A5: numpy array operations used by the code (array, concatenate, delete, copy, zeros, indexing, scalar multiply, isclose, where) have their list/real meaning",
     "A6": "A6: sympy.solve on a square linear system returns a dict iff the solution is unique, and then every point satisfying the equations satisfies var = solution",
